@@ -119,7 +119,11 @@ def handle (line : String) : String :=
       let specUF := match spec with
         | some (is, _) => (dataRecs is).any (fun r => !knownFamily r.cpu)
         | none => false
-      let lenient := (lastd && sel.cfg.slack > crlen + 1) || (specG0 && sel.cfg.divides) || (specUF && sel.cfg.famCheck)
+      -- a segment number outside the documented table (doc/file-formats.md): the tool may refuse the record header
+      let specSeg := match spec with
+        | some (is, _) => (dataRecs is).any (fun r => r.seg.toNat ≥ AslModel.Generated.segCount)
+        | none => false
+      let lenient := (lastd && sel.cfg.slack > crlen + 1) || (specG0 && sel.cfg.divides) || (specUF && sel.cfg.famCheck) || specSeg
       let allowedS : List Nat :=
         (if wf then allowedFor file lenient else if accepted then [0, 2, 3] else allowedFor file false)
           ++ (if auto && (wf || accepted) then [1] else [])
